@@ -97,7 +97,9 @@ pub unsafe extern "C" fn send(fd: libc::c_int, buf: *const libc::c_void, n: libc
             }
             let mut done = 0usize;
             while done < m {
-                let r = raw_send(fd, (buf as *const u8).add(done) as *const libc::c_void, m - done, flags);
+                // MSG_DONTWAIT: the writer may be in blocking mode; a full kernel buffer must come
+                // back as EAGAIN so that the peer end can be drained here
+                let r = raw_send(fd, (buf as *const u8).add(done) as *const libc::c_void, m - done, flags | libc::MSG_DONTWAIT);
                 if r > 0 {
                     done += r as usize;
                 } else if r < 0 && *libc::__errno_location() == libc::EAGAIN {
@@ -258,6 +260,7 @@ fn err_str(e: &ChannelError) -> String {
         ChannelError::NothingRead => "nothing".into(),
         ChannelError::InvalidProtobufMessage(_) => "invalid".into(),
         ChannelError::Write(_) => "write".into(),
+        ChannelError::TimeoutReached(_) => "timeout".into(),
         other => format!("other:{}", format!("{other:?}").split(['(', ' ', '{']).next().unwrap_or("?")),
     }
 }
@@ -362,6 +365,41 @@ impl Rig {
         unsafe { drain_fd(self.hw.as_raw_fd(), &mut got) };
         self.wire.extend(got);
         res
+    }
+
+    /// `write_message` in blocking mode, the kernel answering the flush loop by `sched`
+    fn blocking_write(&mut self, m: &WorkerRequest, sched: &[u64]) -> Result<(), ChannelError> {
+        CTL.with(|c| {
+            let mut c = c.borrow_mut();
+            c.sched = sched.iter().map(|k| (*k).min(usize::MAX as u64) as usize).collect();
+            c.active = true;
+        });
+        let _ = self.w.blocking();
+        let res = self.w.write_message(&Probe(m.clone()));
+        let _ = self.w.nonblocking();
+        let mut got = CTL.with(|c| {
+            let mut c = c.borrow_mut();
+            c.active = false;
+            c.sched.clear();
+            std::mem::take(&mut c.wire)
+        });
+        unsafe { drain_fd(self.hw.as_raw_fd(), &mut got) };
+        self.wire.extend(got);
+        res
+    }
+
+    /// `read_message_blocking_timeout` (the timeout only matters when the socket is empty)
+    fn blocking_read(&mut self, oracle: &mut Vec<(String, String)>) -> Result<String, ChannelError> {
+        let _ = self.r.blocking();
+        let res = self.r.read_message_blocking_timeout(Some(std::time::Duration::from_millis(120)));
+        let _ = self.r.nonblocking();
+        match res {
+            Ok(Probe(m)) => {
+                self.account(&m, oracle);
+                Ok(canon_id(&m.id))
+            }
+            Err(e) => Err(e),
+        }
     }
 
     fn deliver(&mut self, k: u64) -> usize {
@@ -532,6 +570,9 @@ impl Rig {
                 _ => "spurious-toolarge",
             },
             "under" => "wedge-under-length-prefix",
+            // a blocking write returned Ok although only part of the frame was sent (its flush
+            // loop swallows every sock.write error) and nobody is armed to send the rest
+            "nothing" if self.w.back_buf.available_data() > 0 && !self.w.interest.is_writable() => "blocking-write-ok-with-unsent-remainder",
             "nothing" => "lost-message",
             "eof" => "stuck-after-eof",
             "conn" => "stuck-not-readable",
@@ -593,6 +634,10 @@ fn gen_valid(rng: &mut Rng, thorough: bool) -> Vec<String> {
     let mut huge_done = false;
     let mut state = 0; // 0 any, 1 after write, 2 after flush, 3 after deliver, 4 after readable
     let mut delivers = 0;
+    let mut partial_bw = false;
+    let mut breads = 0;
+    // blocking reads cost a real timeout (>= 100 ms) whenever the socket is empty: few cases only
+    let blocking_reader = rng.chance(1, 25);
     for _ in 0..n {
         let r = rng.below(100);
         let choice = match state {
@@ -618,7 +663,13 @@ fn gen_valid(rng: &mut Rng, thorough: bool) -> Vec<String> {
                     }
                 }
                 if let Some(m) = build_msg(idx, size) {
-                    ops.push(format!("w {} {}", canon_id(&m.id), segs(&m.encode_to_vec())));
+                    if rng.chance(1, 8) {
+                        // blocking-mode write; a partial schedule leaves a remainder nobody is armed for
+                        let sched = if rng.chance(3, 5) { format!("{ALL}") } else { partial_bw = true; pick_k(rng, max).to_string() };
+                        ops.push(format!("bw {} {} {sched}", canon_id(&m.id), segs(&m.encode_to_vec())));
+                    } else {
+                        ops.push(format!("w {} {}", canon_id(&m.id), segs(&m.encode_to_vec())));
+                    }
                     idx += 1;
                 }
                 state = 1;
@@ -642,6 +693,12 @@ fn gen_valid(rng: &mut Rng, thorough: bool) -> Vec<String> {
                     ops.push(format!("deliver {}", pick_k(rng, max)));
                 }
                 state = 3;
+                if blocking_reader && breads < 4 && rng.chance(2, 3) {
+                    // a blocking reader: no readable(), the read pulls from the socket itself
+                    breads += 1;
+                    ops.push("bread".into());
+                    state = 0;
+                }
             }
             3 => {
                 ops.push("readable".into());
@@ -649,7 +706,12 @@ fn gen_valid(rng: &mut Rng, thorough: bool) -> Vec<String> {
             }
             4 => {
                 for _ in 0..rng.range(1, 3) {
-                    ops.push("read".into());
+                    if blocking_reader && breads < 4 && rng.chance(1, 4) {
+                        breads += 1;
+                        ops.push("bread".into());
+                    } else {
+                        ops.push("read".into());
+                    }
                 }
                 state = 0;
             }
@@ -657,6 +719,13 @@ fn gen_valid(rng: &mut Rng, thorough: bool) -> Vec<String> {
                 ops.push("extract".into());
                 state = 0;
             }
+        }
+    }
+    if partial_bw {
+        // a blocking writer only flushes inside write_message: one more (complete) blocking
+        // write pushes out whatever an earlier send timeout left behind
+        if let Some(m) = build_msg(idx, 13) {
+            ops.push(format!("bw {} {} {ALL}", canon_id(&m.id), segs(&m.encode_to_vec())));
         }
     }
     ops.push("drain 4000".into());
@@ -953,7 +1022,7 @@ impl Area for ChannelArea {
         let mut rig: Option<Rig> = None;
         let mut errors_seen = 0u64;
         // raw-only cases: what must be delivered is the reference reading of the whole raw stream
-        let has_w = ops.iter().any(|o| o.starts_with("w "));
+        let has_w = ops.iter().any(|o| o.starts_with("w ") || o.starts_with("bw "));
         let raw_stream: Vec<u8> = ops
             .iter()
             .filter(|o| o.starts_with("raw ") || o.starts_with("rawgood "))
@@ -1019,6 +1088,37 @@ impl Area for ChannelArea {
                     }
                     None => "bad-op".into(),
                 },
+                ("bread", Some(g)) if ws.len() == 1 => match g.blocking_read(&mut run.oracle) {
+                    Ok(id) => format!("msg {id}"),
+                    Err(e) => {
+                        let s = err_str(&e);
+                        run.tags.push(format!("brerr:{}", s.split(' ').next().unwrap()));
+                        format!("err {s}")
+                    }
+                },
+                ("bw", Some(g)) if ws.len() == 4 => {
+                    match (unsegs(ws[2]).and_then(|p| WorkerRequest::decode(&p[..]).ok().map(|m| (p, m))), parse_sched(ws[3])) {
+                        (Some((p, m)), Some(sched)) => {
+                            let flen = p.len() + 8;
+                            g.declare(ws[1], p);
+                            match g.blocking_write(&m, &sched) {
+                                Ok(()) => {
+                                    g.expected.push_back(m);
+                                    "ok".into()
+                                }
+                                Err(e) => {
+                                    let s = err_str(&e);
+                                    run.tags.push(format!("bwerr:{}", s.split(' ').next().unwrap()));
+                                    if flen <= g.eff() && g.w.back_buf.available_data() == 0 {
+                                        run.oracle.push(("write-refused-frame-within-max".into(), format!("blocking write of a {flen} B frame refused ({s}) with an empty back buffer, ceiling {}", g.eff())));
+                                    }
+                                    format!("err {s}")
+                                }
+                            }
+                        }
+                        _ => "bad-op".into(),
+                    }
+                }
                 ("flush", Some(g)) if ws.len() == 2 => match parse_sched(ws[1]) {
                     Some(sched) => match g.flush(&sched) {
                         Ok(n) => format!("n {n}"),
